@@ -126,6 +126,7 @@ func getC05PKI() *c05PKI {
 		var goodKey *ecdsa.PrivateKey
 		p.server["good"], goodKey = mkLeaf(caA, "server.test", goodNames, goodIPs, false, x509.ExtKeyUsageServerAuth)
 		p.server["nameonly"], _ = mkLeaf(caA, "server.test", goodNames, nil, false, x509.ExtKeyUsageServerAuth)
+		p.server["iponly"], _ = mkLeaf(caA, "ip-only", nil, goodIPs, false, x509.ExtKeyUsageServerAuth) // histories (tlshist) only
 		p.server["wronghost"], _ = mkLeaf(caA, "other.test", []string{"other.test"}, []net.IP{net.ParseIP("10.9.9.9")}, false, x509.ExtKeyUsageServerAuth)
 		p.server["untrusted"], _ = mkLeaf(caB, "server.test", goodNames, goodIPs, false, x509.ExtKeyUsageServerAuth)
 		p.server["expired"], _ = mkLeaf(caA, "server.test", goodNames, goodIPs, true, x509.ExtKeyUsageServerAuth)
